@@ -480,6 +480,9 @@ pub fn run_case(seed: u64, idx: u64, exact: bool, verbose: bool) -> Outcome {
         let _ = taffy::verif_hooks::take_trace();
     }
     let case = gen_case(seed, idx);
+    // a third of the cases: the user's measure function gives context-less leaves a non-zero size (both trees use the same
+    // function; the documented pattern measures every leaf, whether it has a context or not)
+    NOCTX_SIZE.with(|c| c.set(if idx % 3 == 1 { (17.25, 9.5) } else { (0.0, 0.0) }));
     let mut out = Outcome { fails: vec![], known: vec![], skipped: false, layouts: 0, cachefree: 0, log: vec![] };
     if verbose {
         out.log.push(format!("tree: {:#?}\npasses: {:?} small={}", case.spec, case.passes, case.small));
@@ -659,6 +662,7 @@ fn push_op(c: &mut Vec<i64>, op: &[i64]) {
 /// The history `vh eng cases` generates for (seed, idx) -- same PRNG stream, same encoding -- applied to a TaffyTree and to
 /// a CTree in lock step.  Returns (encoded case, CTree flags after every call, steps where CTree and TaffyTree disagree).
 pub fn run_history(seed: u64, idx: u64) -> (Vec<i64>, Vec<i64>, Vec<String>) {
+    NOCTX_SIZE.with(|c| c.set((0.0, 0.0)));
     let is_none = |s: &Style| (s.display == Display::None) as i64;
     let mut rng = Rng::new(seed.wrapping_mul(0x9E37_79B9).wrapping_add(idx) ^ 0xE16);
     let mut cfg = GenCfg::default();
